@@ -133,7 +133,7 @@ pub fn solo_spec(prop: &str) -> Option<SoloSpec> {
         "C01" => SoloSpec {
             prop: "C01",
             profile: Profile { flag_p: 0.5, ..d },
-            hist_p: 0.0,
+            hist_p: 0.08,
             trace: Trace::Light,
             spy: false,
             runs_quick: 160_000,
@@ -144,7 +144,7 @@ pub fn solo_spec(prop: &str) -> Option<SoloSpec> {
         "C02" => SoloSpec {
             prop: "C02",
             profile: Profile { long_bias: 0.05, memo_mutators: true, rate_one: 0.45, mutators_p: 0.85, ..d },
-            hist_p: 0.0,
+            hist_p: 0.08,
             trace: Trace::Light,
             spy: false,
             runs_quick: 60_000,
@@ -155,7 +155,7 @@ pub fn solo_spec(prop: &str) -> Option<SoloSpec> {
         "C03" => SoloSpec {
             prop: "C03",
             profile: d,
-            hist_p: 0.0,
+            hist_p: 0.08,
             trace: Trace::Light,
             spy: false,
             runs_quick: 160_000,
@@ -276,7 +276,7 @@ pub fn solo_spec(prop: &str) -> Option<SoloSpec> {
         "C17" => SoloSpec {
             prop: "C17",
             profile: d,
-            hist_p: 0.0,
+            hist_p: 0.08,
             trace: Trace::Full,
             spy: false,
             runs_quick: 90_000,
@@ -325,8 +325,12 @@ pub fn trace_for(spec: &SoloSpec, sc: &Scenario) -> Trace {
 /// Evaluate one property on an executed scenario. Returns violations (first per call).
 pub fn evaluate(prop: &str, sc: &Scenario, recs: &[CallRecord], stats: &mut Stats) -> Vec<Violation> {
     let mut out = vec![];
-    let safe = !sc.config.unsafe_mutations;
     for (ci, rec) in recs.iter().enumerate() {
+        // the mode in force for this call (a history may switch modes between calls)
+        let safe = !rec.config.unsafe_mutations;
+        if rec.config.unsafe_mutations != sc.config.unsafe_mutations {
+            stats.bump(if safe { "fault.hist.safe_call_after_unsafe_interlude" } else { "fault.hist.unsafe_interlude_call" });
+        }
         stats.calls += 1;
         if rec.exhausted() {
             stats.bump("fault.cut.fired(script exhausted)");
@@ -597,6 +601,12 @@ pub fn soak_scenario(spec: &SoloSpec, seed: u64, k: u64) -> Scenario {
         if rng.random_range(0..97) == 0 {
             history.push(HOp::Reset);
         }
+        if rng.random_range(0..131) == 0 {
+            // a short interlude in the other mode
+            history.push(HOp::SetUnsafe(!config.unsafe_mutations));
+            history.push(HOp::Gen(mix::draw_entropy(&mut rng, &p, &mut faults)));
+            history.push(HOp::SetUnsafe(config.unsafe_mutations));
+        }
     }
     faults.truncate(4);
     faults.push(desc::Fault { kind: "hist", at: calls, detail: format!("long-lived generator: {} generation calls", calls) });
@@ -656,14 +666,26 @@ fn wide_scenario(spec: &SoloSpec, seed: u64, k: u64) -> Scenario {
     let mut idx: Vec<usize> = (0..pats.len())
         .filter(|&i| !pats[i].pat.is_empty() && !pats[i].once && (pats[i].protocol <= 1) == low && pats[i].score[obj] >= 700 && (pats[i].score[1] <= 8 || obj == 2 || obj == 0))
         .collect();
-    idx.sort_by(|&a, &b| pats[b].score[obj].cmp(&pats[a].score[obj]).then(pats[a].protocol.cmp(&pats[b].protocol)).then(pats[a].pat.cmp(&pats[b].pat)));
+    idx.sort_by(|&a, &b| pats[b].score[obj].cmp(&pats[a].score[obj]).then(pats[a].protocol.cmp(&pats[b].protocol)).then(pats[a].pat.cmp(&pats[b].pat)).then(pats[a].pre.cmp(&pats[b].pre)));
     let Some(&pi) = idx.get(rank).or(idx.first()) else {
         // no cheap pattern for this dimension: fall back to an ordinary deep run
         return deep_scenario_base(spec, seed, Tier::Quick, k);
     };
     let pat = &pats[pi];
-    let n = 66_500usize;
-    let script: Vec<u8> = (0..n + 64).map(|j| pat.pat[j % pat.pat.len()]).collect();
+    // the periodic phase lasts until the dimension has crossed 2^16 (the probe measured its growth
+    // per 800 opcodes); it is followed by a free-running phase of 900 pseudo-random choices executed
+    // on that state (what a fuzzer input does after a long monotonous stretch)
+    let periodic = ((65_600u64 * 800 / (pat.score[obj].max(1) as u64)) as usize).clamp(65_600, 76_000);
+    let free = 900usize;
+    let n = periodic + free;
+    let mut script: Vec<u8> = pattern_bytes(&pat.pre, &pat.pat, periodic);
+    {
+        use rand::RngCore;
+        let mut rng = mix::rng_from(desc::derive_seed(seed, "wide.tail", k));
+        let mut tail = vec![0u8; free * 6];
+        rng.fill_bytes(&mut tail);
+        script.extend_from_slice(&tail);
+    }
     let mut c = Config::default_for(pat.protocol);
     c.min_opcodes = n;
     c.max_opcodes = n;
@@ -671,7 +693,7 @@ fn wide_scenario(spec: &SoloSpec, seed: u64, k: u64) -> Scenario {
     sc.faults.push(desc::Fault {
         kind: "stuck",
         at: 0,
-        detail: format!("periodic script {:02x?} pushed past 2^16 for {} (probe scores {:?}), {} opcodes", pat.pat, OBJECTIVES[obj], pat.score, n),
+        detail: format!("periodic script {} pushed past 2^16 for {} (probe scores {:?}) for {} opcodes, then {} free-running choices", pat.describe(), OBJECTIVES[obj], pat.score, periodic, free),
     });
     sc
 }
@@ -708,6 +730,9 @@ pub struct Pattern {
     /// false: the bytes repeat forever (a stuck / looping source); true: the bytes come once and the
     /// source is exhausted afterwards (a short input with a huge opcode budget)
     pub once: bool,
+    /// bytes consumed once before the periodic phase (a steering prefix that brings the generator
+    /// into the state in which the periodic byte keeps picking the same opcode)
+    pub pre: Vec<u8>,
     pub pat: Vec<u8>,
     /// measured in the probe: nesting depth, max stack depth, max open MARKs, max memo size, output bytes
     pub score: [u32; 7],
@@ -716,23 +741,59 @@ pub struct Pattern {
 pub const OBJECTIVES: [&str; 7] = ["nesting-depth", "stack-depth", "open-marks", "memo-size", "output-bytes", "framed-output-bytes", "mark-burial-depth"];
 
 /// the fuzzer script of a pattern for a run of n opcodes
-pub fn pattern_script(pat: &[u8], once: bool, n: usize) -> Vec<u8> {
+pub fn pattern_script(pre: &[u8], pat: &[u8], once: bool, n: usize) -> Vec<u8> {
     if pat.is_empty() {
-        vec![]
+        pre.to_vec()
     } else if once {
-        pat.to_vec()
+        let mut v = pre.to_vec();
+        v.extend_from_slice(pat);
+        v
     } else {
-        (0..n + 64).map(|j| pat[j % pat.len()]).collect()
+        pattern_bytes(pre, pat, n + 64)
     }
 }
 
-fn probe_pattern(p: u8, pat: &[u8], once: bool) -> [u32; 7] {
+/// the first `nbytes` bytes of prefix + periodic phase
+pub fn pattern_bytes(pre: &[u8], pat: &[u8], nbytes: usize) -> Vec<u8> {
+    let mut v: Vec<u8> = pre.iter().copied().take(nbytes).collect();
+    let mut j = 0usize;
+    while v.len() < nbytes && !pat.is_empty() {
+        v.push(pat[j % pat.len()]);
+        j += 1;
+    }
+    v
+}
+
+impl Pattern {
+    pub fn describe(&self) -> String {
+        if self.pre.is_empty() {
+            format!("{:02x?}", self.pat)
+        } else {
+            format!("{:02x?} after the prefix {:02x?}", self.pat, self.pre)
+        }
+    }
+    /// text form used on the probing child's progress lines
+    pub fn text(pre: &[u8], pat: &[u8], once: bool) -> String {
+        format!("{}{}{}", if once { "once:" } else { "" }, if pre.is_empty() { String::new() } else { format!("pre{}+", desc::hex(pre)) }, desc::hex(pat))
+    }
+    pub fn parse_text(t: &str) -> (Vec<u8>, Vec<u8>, bool) {
+        let once = t.starts_with("once:");
+        let t = t.trim_start_matches("once:");
+        let (pre, pat) = match t.strip_prefix("pre").and_then(|r| r.split_once('+')) {
+            Some((a, b)) => (desc::unhex(a).unwrap_or_default(), b),
+            None => (vec![], t),
+        };
+        (pre, desc::unhex(pat).unwrap_or_default(), once)
+    }
+}
+
+fn probe_pattern(p: u8, pre: &[u8], pat: &[u8], once: bool) -> [u32; 7] {
     tick();
     let probe = 800usize;
     let mut c = Config::default_for(p);
     c.min_opcodes = probe;
     c.max_opcodes = probe;
-    let script = pattern_script(pat, once, probe);
+    let script = pattern_script(pre, pat, once, probe);
     let sc = Scenario::solo(c, Entropy::Bytes(script));
     let recs = exec::run_scenario(&sc, Trace::Off, false);
     let Some(b) = recs.first().and_then(|r| r.outcome.bytes()) else { return [0; 7] };
@@ -936,34 +997,90 @@ pub fn pair_probe_scenario(i: usize) -> Option<Scenario> {
 
 /// when PFSIM_PROBE_PROGRESS is set (the isolated probing child of the C09 check) every probe is
 /// announced on stdout, so that a probe that kills or hangs the child can be attributed
-fn probe_progress(i: usize, p: &u8, pat: &[u8], begin: bool) {
-    probe_progress_full(i, p, pat, false, begin)
-}
-
-fn probe_progress_full(i: usize, p: &u8, pat: &[u8], once: bool, begin: bool) {
+fn probe_progress_full(i: usize, p: &u8, pre: &[u8], pat: &[u8], once: bool, begin: bool) {
     use std::io::Write;
     use std::sync::OnceLock;
     static ON: OnceLock<bool> = OnceLock::new();
     if *ON.get_or_init(|| std::env::var("PFSIM_PROBE_PROGRESS").is_ok()) {
         let o = std::io::stdout();
         let mut o = o.lock();
-        let _ = writeln!(o, "{} {} {} {}{}", if begin { "PB" } else { "PE" }, i, p, if once { "once:" } else { "" }, desc::hex(pat));
+        let _ = writeln!(o, "{} {} {} {}", if begin { "PB" } else { "PE" }, i, p, Pattern::text(pre, pat, once));
         let _ = o.flush();
     }
 }
 
 /// the probe run of a pattern as a scenario (for attributing a death or hang of the probing child)
-pub fn probe_scenario(p: u8, pat: &[u8], once: bool) -> Scenario {
+pub fn probe_scenario(p: u8, pre: &[u8], pat: &[u8], once: bool) -> Scenario {
     let probe = 800usize;
     let mut c = Config::default_for(p);
     c.min_opcodes = probe;
     c.max_opcodes = probe;
-    Scenario::solo(c, Entropy::Bytes(pattern_script(pat, once, probe)))
+    Scenario::solo(c, Entropy::Bytes(pattern_script(pre, pat, once, probe)))
 }
 
 /// compute the probe table now (used by the isolated probing child)
 pub fn force_deep_patterns(seed: u64) -> usize {
     deep_patterns(seed).len() + pair_patterns(seed).len()
+}
+
+/// (protocol, steering prefix, stuck byte) for every opcode X that the generator can be made to
+/// repeat: some first choice a followed by a constant byte b yields X X X X X. Found by exhaustive
+/// short probes (6 opcodes) over all (a, b) - and both framing decisions for protocols >= 4.
+fn self_loops() -> Vec<(u8, Vec<u8>, u8)> {
+    let nt = n_threads();
+    let mut found: Vec<(u8, Vec<u8>, u8, u8)> = std::thread::scope(|s| {
+        let hs: Vec<_> = (0..nt)
+            .map(|t| {
+                s.spawn(move || {
+                    let mut out: Vec<(u8, Vec<u8>, u8, u8)> = vec![];
+                    for p in 0..6u8 {
+                        let frames: &[Option<u8>] = if p >= 4 { &[Some(0), Some(1)] } else { &[None] };
+                        for f in frames {
+                            let mut a = t;
+                            while a < 256 {
+                                for b in 0..=255u8 {
+                                    let mut pre: Vec<u8> = f.iter().copied().collect();
+                                    pre.push(a as u8);
+                                    let mut c = Config::default_for(p);
+                                    c.min_opcodes = 6;
+                                    c.max_opcodes = 6;
+                                    let mut script = pre.clone();
+                                    script.extend(std::iter::repeat(b).take(24));
+                                    let sc = Scenario::solo(c, Entropy::Bytes(script));
+                                    let recs = exec::run_scenario(&sc, Trace::Off, false);
+                                    let Some(o) = recs.first().and_then(|r| r.outcome.bytes()) else { continue };
+                                    let (ops, err) = crate::lexer::lex(o);
+                                    if err.is_some() {
+                                        continue;
+                                    }
+                                    let body: Vec<u8> = ops.iter().map(|o| o.code()).filter(|c| *c != 0x80 && *c != 0x95).collect();
+                                    if body.len() >= 7 && body[1..6].iter().all(|c| *c == body[1]) {
+                                        out.push((p, pre, b, body[1]));
+                                    }
+                                }
+                                a += nt;
+                            }
+                        }
+                    }
+                    out
+                })
+            })
+            .collect();
+        hs.into_iter().flat_map(|h| h.join().unwrap()).collect()
+    });
+    // one representative per (protocol, framing, repeated opcode): the smallest (prefix, byte)
+    found.sort();
+    let mut seen = std::collections::HashSet::new();
+    let mut out = vec![];
+    for (p, pre, b, x) in found {
+        if pre.last() == Some(&b) {
+            continue; // a plain constant script, already a candidate
+        }
+        if seen.insert((p, pre.len(), if pre.len() == 2 { pre[0] } else { 9 }, x)) {
+            out.push((p, pre, b));
+        }
+    }
+    out
 }
 
 fn deep_patterns(seed: u64) -> &'static Vec<Pattern> {
@@ -985,7 +1102,7 @@ fn deep_patterns(seed: u64) -> &'static Vec<Pattern> {
                                     for (i, x) in sc.iter().enumerate().take(7) {
                                         score[i] = x.as_u64()? as u32;
                                     }
-                                    Some(Pattern { protocol: e[0].as_u64()? as u8, once: e[3].as_bool().unwrap_or(false), pat: desc::unhex(e[1].as_str()?).ok()?, score })
+                                    Some(Pattern { protocol: e[0].as_u64()? as u8, once: e[3].as_bool().unwrap_or(false), pre: e[4].as_str().and_then(|x| desc::unhex(x).ok()).unwrap_or_default(), pat: desc::unhex(e[1].as_str()?).ok()?, score })
                                 })
                                 .collect();
                             if !pats.is_empty() {
@@ -996,19 +1113,23 @@ fn deep_patterns(seed: u64) -> &'static Vec<Pattern> {
                 }
             }
         }
-        let mut cands: Vec<(u8, Vec<u8>, bool)> = vec![];
+        let mut cands: Vec<(u8, Vec<u8>, Vec<u8>, bool)> = vec![];
         for p in 0..6u8 {
-            cands.push((p, vec![], false)); // the exhausted source
+            cands.push((p, vec![], vec![], false)); // the exhausted source
             for b in 0..=255u8 {
-                cands.push((p, vec![b], false));
+                cands.push((p, vec![], vec![b], false));
                 // one choice byte, then exhausted: a tiny input with a huge opcode budget
-                cands.push((p, vec![b], true));
+                cands.push((p, vec![], vec![b], true));
             }
             let mut rng = mix::rng_from(desc::derive_seed(seed, "deep.patterns", p as u64));
             for _ in 0..96 {
                 let n = rng.random_range(2..=3);
-                cands.push((p, (0..n).map(|_| rng.random()).collect(), false));
+                cands.push((p, vec![], (0..n).map(|_| rng.random()).collect(), false));
             }
+        }
+        // steering prefix + stuck byte: every opcode that can follow itself indefinitely
+        for (p, pre, b) in self_loops() {
+            cands.push((p, pre, vec![b], false));
         }
         let nt = n_threads();
         let chunks: Vec<Vec<Pattern>> = std::thread::scope(|s| {
@@ -1019,10 +1140,10 @@ fn deep_patterns(seed: u64) -> &'static Vec<Pattern> {
                         let mut out = vec![];
                         let mut i = t;
                         while i < cands.len() {
-                            let (p, pat, once) = &cands[i];
-                            probe_progress_full(i, p, pat, *once, true);
-                            out.push((i, Pattern { protocol: *p, once: *once, pat: pat.clone(), score: probe_pattern(*p, pat, *once) }));
-                            probe_progress_full(i, p, pat, *once, false);
+                            let (p, pre, pat, once) = &cands[i];
+                            probe_progress_full(i, p, pre, pat, *once, true);
+                            out.push((i, Pattern { protocol: *p, once: *once, pre: pre.clone(), pat: pat.clone(), score: probe_pattern(*p, pre, pat, *once) }));
+                            probe_progress_full(i, p, pre, pat, *once, false);
                             i += nt;
                         }
                         out
@@ -1053,7 +1174,7 @@ fn deep_schedule(seed: u64) -> &'static Vec<(usize, usize)> {
                     .iter()
                     .map(|grp| {
                         let mut idx: Vec<usize> = (0..pats.len()).filter(|&i| grp.contains(&pats[i].protocol)).collect();
-                        idx.sort_by(|&a, &b| pats[b].score[obj].cmp(&pats[a].score[obj]).then(pats[a].protocol.cmp(&pats[b].protocol)).then(pats[a].pat.cmp(&pats[b].pat)));
+                        idx.sort_by(|&a, &b| pats[b].score[obj].cmp(&pats[a].score[obj]).then(pats[a].protocol.cmp(&pats[b].protocol)).then(pats[a].pat.cmp(&pats[b].pat)).then(pats[a].pre.cmp(&pats[b].pre)));
                         idx
                     })
                     .collect()
@@ -1090,7 +1211,7 @@ pub fn export_deep_patterns_to(seed: u64, path: &str) {
     let path = path.to_string();
     let pairs = pair_patterns(seed);
     let idx = PAIR_INDEX.get().cloned().unwrap_or_default();
-    let doc = json!({"seed": seed.to_string(), "patterns": pats.iter().map(|p| json!([p.protocol, desc::hex(&p.pat), p.score.to_vec(), p.once])).collect::<Vec<_>>(),
+    let doc = json!({"seed": seed.to_string(), "patterns": pats.iter().map(|p| json!([p.protocol, desc::hex(&p.pat), p.score.to_vec(), p.once, desc::hex(&p.pre)])).collect::<Vec<_>>(),
         "pairs": pairs.iter().zip(idx.iter()).map(|(p, i)| json!([i, p.unfolded_log2, p.nesting])).collect::<Vec<_>>()});
     if std::fs::write(&path, doc.to_string()).is_ok() {
         std::env::set_var("PFSIM_DEEP_FILE", &path);
@@ -1098,18 +1219,18 @@ pub fn export_deep_patterns_to(seed: u64, path: &str) {
 }
 
 /// bytes of the periodic script consumed by exactly `n` body opcodes (measured once per pattern)
-fn consumed_by(p: u8, pat: &[u8], n: usize) -> usize {
+fn consumed_by(p: u8, pre: &[u8], pat: &[u8], n: usize) -> usize {
     use std::sync::{Mutex, OnceLock};
-    static CACHE: OnceLock<Mutex<std::collections::HashMap<(u8, Vec<u8>, usize), usize>>> = OnceLock::new();
+    static CACHE: OnceLock<Mutex<std::collections::HashMap<(u8, Vec<u8>, Vec<u8>, usize), usize>>> = OnceLock::new();
     let cache = CACHE.get_or_init(|| Mutex::new(std::collections::HashMap::new()));
-    if let Some(v) = cache.lock().unwrap().get(&(p, pat.to_vec(), n)) {
+    if let Some(v) = cache.lock().unwrap().get(&(p, pre.to_vec(), pat.to_vec(), n)) {
         return *v;
     }
     let mut c = Config::default_for(p);
     c.min_opcodes = n;
     c.max_opcodes = n;
     let total = n * 12 + 64;
-    let script: Vec<u8> = (0..total).map(|j| pat[j % pat.len()]).collect();
+    let script: Vec<u8> = pattern_bytes(pre, pat, total);
     let sc = Scenario::solo(c, Entropy::Bytes(script));
     let recs = exec::run_scenario(&sc, Trace::Light, false);
     let mut consumed = total;
@@ -1120,7 +1241,7 @@ fn consumed_by(p: u8, pat: &[u8], n: usize) -> usize {
             }
         }
     }
-    cache.lock().unwrap().insert((p, pat.to_vec(), n), consumed);
+    cache.lock().unwrap().insert((p, pre.to_vec(), pat.to_vec(), n), consumed);
     consumed
 }
 
@@ -1137,8 +1258,8 @@ fn tail_variant_scenario(spec: &SoloSpec, seed: u64, tier: Tier, k: u64) -> Scen
         (Tier::Thorough, 0) => 30_000,
         _ => 9_000,
     };
-    let used = consumed_by(pat.protocol, &pat.pat, n);
-    let mut script: Vec<u8> = (0..used).map(|j| pat.pat[j % pat.pat.len()]).collect();
+    let used = consumed_by(pat.protocol, &pat.pre, &pat.pat, n);
+    let mut script: Vec<u8> = pattern_bytes(&pat.pre, &pat.pat, used);
     script.push(b);
     let mut c = Config::default_for(pat.protocol);
     c.min_opcodes = n + 1;
@@ -1148,7 +1269,7 @@ fn tail_variant_scenario(spec: &SoloSpec, seed: u64, tier: Tier, k: u64) -> Scen
     sc.faults.push(desc::Fault {
         kind: "stuck",
         at: used,
-        detail: format!("periodic script {:02x?} for {} opcodes ({}), then one choice byte 0x{:02x}, then exhausted", pat.pat, n, OBJECTIVES[obj], b),
+        detail: format!("periodic script {} for {} opcodes ({}), then one choice byte 0x{:02x}, then exhausted", pat.describe(), n, OBJECTIVES[obj], b),
     });
     sc
 }
@@ -1185,7 +1306,7 @@ fn deep_scenario_base(spec: &SoloSpec, seed: u64, tier: Tier, k: u64) -> Scenari
         (Tier::Thorough, 0) => [12_000usize, 20_000, 30_000, 40_000, 50_000][(k % 5) as usize],
         (Tier::Thorough, _) => [9_000usize, 11_000, 16_000, 22_000, 30_000][(k % 5) as usize],
     };
-    let script = pattern_script(&pat.pat, pat.once, n);
+    let script = pattern_script(&pat.pre, &pat.pat, pat.once, n);
     let mut c = Config::default_for(pat.protocol);
     c.min_opcodes = n;
     c.max_opcodes = n;
@@ -1193,9 +1314,9 @@ fn deep_scenario_base(spec: &SoloSpec, seed: u64, tier: Tier, k: u64) -> Scenari
         kind: "stuck",
         at: 0,
         detail: format!(
-            "{} script {:02x?} chosen for {} (probe scores nesting/stack/marks/memo/bytes = {:?}), {} opcodes",
+            "{} script {} chosen for {} (probe scores nesting/stack/marks/memo/bytes = {:?}), {} opcodes",
             if pat.pat.is_empty() { "exhausted".to_string() } else if pat.once { "one-byte-then-exhausted".to_string() } else { format!("periodic (period {})", pat.pat.len()) },
-            pat.pat,
+            pat.describe(),
             OBJECTIVES[obj],
             pat.score,
             n
@@ -1255,7 +1376,7 @@ pub fn run_one(spec: &SoloSpec, seed: u64, tier: Tier, i: u64, runs: u64, stats:
         for r in &recs {
             if let Some(b) = r.outcome.bytes() {
                 if b.len() < 20_000 {
-                    stats.py_samples.push((i, b.to_vec(), !sc.config.unsafe_mutations));
+                    stats.py_samples.push((i, b.to_vec(), !r.config.unsafe_mutations));
                 }
             }
         }
